@@ -954,6 +954,21 @@ class Interp(object):
                 return st.add_neq(a, b)
             if truth:
                 return st.union(a, b)
+            # a != b where the path already knows a >= b (an unsigned countdown compared with 0): a >= b + 1
+            try:
+                ca, cb = st.canon(a), st.canon(b)
+                if ca[0] not in ('ptr', 'pset', 'fn') and cb[0] not in ('ptr', 'pset', 'fn'):
+                    d_ = lin_of(ca).add(lin_of(cb), -1)
+                    if not d_.is_const() and len(d_.co) >= 2:
+                        if st.entails_le0(d_.scale(-1)):
+                            g_ = d_.scale(-1)
+                            g_.k += 1
+                            st.add_fact(g_)
+                        elif st.entails_le0(d_):
+                            g_ = Lin(dict(d_.co), d_.k + 1)
+                            st.add_fact(g_)
+            except Exception:
+                pass
             return st.add_neq(a, b)
         if k in ('lt', 'le'):
             a, b = cond[1], cond[2]
